@@ -48,7 +48,7 @@ func (l *Lab) Wipe() {
 	}
 }
 
-var subNames = []string{"b", "c d", "x1", "zz", "Sub10", "Sub2", "b1", "ü", "v1", "v01", "1.0", "1.00"}
+var subNames = []string{"b", "c d", "x1", "zz", "Sub10", "Sub2", "b1", "ü", "v1", "v01", "1.0", "1.00", "v1.2", "in.json", "50%"}
 
 func tName(s string) string { return strings.ReplaceAll(s, " ", "_") }
 
@@ -76,7 +76,11 @@ type LabCase struct {
 }
 
 func hostileBody(r *rand.Rand, i int) string {
-	switch r.IntN(8) {
+	switch r.IntN(10) {
+	case 8:
+		return fmt.Sprintf("100%% done %%d %%s %%%% %%20b\nnext %d", i)
+	case 9:
+		return fmt.Sprintf("url?q=a%%2Fb&n=%d%%", i)
 	case 0:
 		return fmt.Sprintf("line one %d\n\nline three", i)
 	case 1:
@@ -109,6 +113,9 @@ func (l *Lab) value(r *rand.Rand, api, test string, idx int, hostile bool) strin
 	}
 	if hostile && r.IntN(3) == 0 {
 		return hostileBody(r, idx) + tag
+	}
+	if r.IntN(12) == 0 {
+		return "" // the empty value is a value like any other (a zero-byte standalone file, an empty body)
 	}
 	return "value of " + tag
 }
